@@ -10,7 +10,8 @@ EXPLANATION = ("R04.1 must-reach chains, decided as decision tables of every lin
                "Write::flush of the active writer; async file writer: send(SHUTDOWN payload) then join of the writer thread, whose SHUTDOWN arm "
                "runs State::shutdown before leaving and whose FLUSH arm flushes; flush() of the sync modes reaches Write::flush under the state "
                "lock; allowed skips: poisoned lock, component None, state Initial; R04.2 no type that is both Clone and Drop shuts writers down "
-               "in its Drop without last-owner evidence; R04.3 no mem::forget/leak; R04.4 consumer loops leave only on disconnect or SHUTDOWN. R04.4 the message arms are decided on the rows of the consumer (after FLUSH a flush, after a data message a write, before the next receive). R04.1 also: MultiWriter::flush/shutdown examine the additional writer whenever the file writer's call succeeded (not `else if`).")
+               "in its Drop without last-owner evidence; R04.3 no mem::forget/leak; R04.4 consumer loops leave only on disconnect or SHUTDOWN. R04.4 the message arms are decided on the rows of the consumer (after FLUSH a flush, after a data message a write, before the next receive). R04.1 also: MultiWriter::flush/shutdown examine the additional writer whenever the file writer's call succeeded (not `else if`)."
+               " R04.6 (shared with R01.4): records buffered before a rotation are flushed by the writer swap before the cleanup may remove their file.")
 ASSUMPTIONS = ["BufWriter::flush writes all buffered bytes to the File (std)", "channels are FIFO per sender (crossbeam)", "custom writers' own shutdown is user code"]
 NOT_DECIDED = ["durability beyond flush (page cache)", "timing of the flusher threads (they only add flushes)", "custom writers' shutdown"]
 FLOORS = {'R04.1': 9, 'R04.2': 1, 'R04.3': 1}
